@@ -228,7 +228,7 @@ class Sim(object):
                 raise _Result()
             elif op == "mk":
                 self.defs[st["task"]["id"]] = st["task"]
-            elif op in ("sync", "cancel", "reyield"):
+            elif op in ("sync", "cancel", "reyield", "itemvalue"):
                 raise NotImplementedError("the round simulator does not model %r statements" % (op,))
             else:
                 raise AssertionError(op)
